@@ -1255,6 +1255,16 @@ func inlinedView(P *Prog) (*Prog, []string) {
 	cur := P
 	overlay := P.Overlay
 	var last *Prog
+	// first: parameters that were added to baseline functions and are only logged
+	if r := dropLogOnlyParams(cur.Pkgs, overlay); r.Count > 0 {
+		if Q, err := loadProg(P.RepoDir, P.Tags, r.Overlay); err == nil {
+			notes = append(notes, r.Notes...)
+			overlay = r.Overlay
+			last, cur = Q, Q
+		} else {
+			notes = append(notes, "log-only parameter pass discarded: "+firstLines(err.Error(), 3))
+		}
+	}
 	for round := 0; round < 6; round++ {
 		r := buildInlinedOverlay(cur.Pkgs, overlay)
 		notes = append(notes, r.Notes...)
